@@ -30,7 +30,8 @@ type c09Arch struct {
 	exited   bool
 	sticky   bool
 	lookErr  bool
-	wantGone bool // after two passes
+	recUID   string // non-empty: the UID stored with the record ("-" = none, a record written before UIDs were stored)
+	wantGone bool   // after two passes
 }
 
 var c09Archs = []c09Arch{
@@ -41,6 +42,10 @@ var c09Archs = []c09Arch{
 	{name: "detached", eni: 1, wantGone: true},
 	{name: "lookuperr", eni: 0, lookErr: true},
 	{name: "zlate", eni: 0, wantGone: true}, // a second vanished pod that sorts after every other record
+	// a running pod whose stored record carries no UID (written by an older agent) / the UID of an earlier incarnation
+	// (re-created under the same name, its own ADD not processed yet): the pod exists, the record stays
+	{name: "legacy", eni: 0, present: true, local: true, recUID: "-"},
+	{name: "reborn", eni: 0, present: true, local: true, recUID: "uid-reborn-previous"},
 }
 
 func c09World(x *vrt.Exec, subset []c09Arch) (*dw, map[string]string) {
@@ -61,6 +66,11 @@ func c09World(x *vrt.Exec, subset []c09Arch) (*dw, map[string]string) {
 		pi := &daemon.PodInfo{Name: a.name, Namespace: "ns", PodNetworkType: daemon.PodNetworkTypeENIMultiIP, PodUID: "uid-" + a.name, SandboxExited: a.exited}
 		if a.sticky {
 			pi.IPStickTime = 5 * time.Minute
+		}
+		if a.recUID == "-" {
+			pi.PodUID = ""
+		} else if a.recUID != "" {
+			pi.PodUID = a.recUID
 		}
 		cid := "c-" + a.name
 		nc := []*rpc.NetConf{{BasicInfo: &rpc.BasicInfo{PodIP: &rpc.IPSet{IPv4: ip.String()}, GatewayIP: &rpc.IPSet{IPv4: "10.0.255.253"}}, ENIInfo: &rpc.ENIInfo{MAC: e.MAC}, DefaultRoute: true, IfName: "eth0"}}
@@ -112,7 +122,7 @@ func TestVerifC09(t *testing.T) {
 	if ev.Thorough() {
 		ob = 3
 	}
-	r.Rule(fmt.Sprintf("every subset of 7 record archetypes (live, vanished, exited sandbox, vanished sticky-IP, vanished on an interface with no kernel device, API lookup error, a second vanished pod that sorts last) as (store, pool, pod list) triple; the real gcPods is run three times inside a private network namespace (gcPolicyRoutes/ruleSync talk to the real kernel; lo is the only netlink.Device and stands for the attached interface); store iteration order is an explorer choice (<=%d non-default orders); oracle: after two passes exactly the records and pool ownership of the pods the API confirms absent are gone, everything else is untouched, a third pass changes nothing; plus interleavings gcPods || AllocIP(new pod) || ReleaseIP(vanishing pod)", ob))
+	r.Rule(fmt.Sprintf("every subset of 9 record archetypes (live, vanished, exited sandbox, vanished sticky-IP, vanished on an interface with no kernel device, API lookup error, a second vanished pod that sorts last, running pod whose record has no UID, running pod whose record has an earlier incarnation's UID) as (store, pool, pod list) triple; the real gcPods is run three times inside a private network namespace (gcPolicyRoutes/ruleSync talk to the real kernel; lo is the only netlink.Device and stands for the attached interface); store iteration order is an explorer choice (<=%d non-default orders); oracle: after two passes exactly the records and pool ownership of the pods the API confirms absent are gone, everything else is untouched, a third pass changes nothing; plus interleavings gcPods || AllocIP(new pod) || ReleaseIP(vanishing pod)", ob))
 	var scs []dwScenario
 	n := len(c09Archs)
 	for mask := 1; mask < 1<<n; mask++ {
